@@ -400,6 +400,23 @@ fn exec_inner(line: &str) -> String {
             let a = h!(a);
             by_enc!(*e, hash, &a)
         }
+        ["stdcomps", s] => {
+            // real std::path on a Unix host: validates Spec/StdSpec.lean, not the crate
+            use std::os::unix::ffi::OsStrExt;
+            let b = h!(s);
+            let p = std::path::Path::new(std::ffi::OsStr::from_bytes(&b));
+            let v: Vec<String> = p
+                .components()
+                .map(|c| match c {
+                    std::path::Component::RootDir => "R".to_string(),
+                    std::path::Component::CurDir => "C".to_string(),
+                    std::path::Component::ParentDir => "U".to_string(),
+                    std::path::Component::Normal(x) => format!("N:{}", hex(x.as_bytes())),
+                    std::path::Component::Prefix(_) => "P".to_string(),
+                })
+                .collect();
+            format!("[{}] root={}", v.join(" "), b01(p.has_root()))
+        }
         ["derive", s] => {
             let b = h!(s);
             if TypedPath::derive(&b).is_windows() {
